@@ -12,7 +12,7 @@ Definition batching (c : config) (tmpl : list limiter) (args : list arg) :=
 
 (* The invocations actually made are the batches, in order, with status 0/123 (all input
    processed) or 1 (an argument cannot be placed), as long as no child outcome is fatal. *)
-Theorem C04_invocations_are_batches : forall c tmpl args outs,
+Theorem C04_invocations_are_batches : forall c tmpl args outs, c_replace c = false ->     (* -I is C20's: there a line is run when it is read *)
   charge_init (limiters0 c) (c_init c) = Some tmpl -> really_runs c args ->
   let bs := batches_of (batching c tmpl args) in
   (length bs <= length outs)%nat -> forallb nonfatal (firstn (length bs) outs) = true ->
@@ -20,7 +20,7 @@ Theorem C04_invocations_are_batches : forall c tmpl args outs,
   (match batching c tmpl args with
    | Ran _ => if forallb exit_zero (firstn (length bs) outs) then 0 else 123
    | TooLarge _ => 1 end, bs).
-Proof. intros c tmpl args outs H1 H2. exact (run_no_fatal c tmpl H1 args outs H2). Qed.
+Proof. intros c tmpl args outs H0 H1 H2. exact (run_no_fatal c tmpl H1 args outs H0 H2). Qed.
 Print Assumptions C04_invocations_are_batches.
 
 (* Lossless and ordered; every batch within all limits at once; maximal; empty input;
